@@ -1292,6 +1292,7 @@ void execute(const Plan &plan, Ctx &ctx)
                 bool undetermined = expected.count(Verdict::UNDETERMINED) != 0;
                 std::string structural = (real && unresolved) ? firstUnresolved(c.root) : std::string();
                 bool knownShape = structural == "unfetched-units-import-in-library-model";
+                bool k1Variant = false;
                 if (undetermined) {
                     ctx.count("resolve_undetermined");
                 } else if (real && expected.count(Verdict::SAT) == 0 && !knownShape && expectedLenient.count(Verdict::SAT) != 0) {
@@ -1300,6 +1301,7 @@ void execute(const Plan &plan, Ctx &ctx)
                     ctx.violate("C07", "resolve-true-but-unsatisfiable", "units-import-of-library-model-not-visited", "resolveImports returned true although an import cannot be satisfied: " + why, true);
                     ctx.count("resolve_true_broken_units_import_of_library_model_not_visited");
                     exact = false;
+                    k1Variant = true;
                 } else if (real && expected.count(Verdict::SAT) == 0 && !knownShape) {
                     ctx.violate("C07", "resolve-true-but-unsatisfiable", tags, "resolveImports returned true although an import cannot be satisfied: " + why);
                     return;
@@ -1310,7 +1312,7 @@ void execute(const Plan &plan, Ctx &ctx)
                 }
                 // (only when the file layer showed one consistent world during the call: with in-flight changes served to
                 // different opens the model may legitimately be linked to a mixture of versions)
-                if (real && !undetermined && unresolved && expected.size() == 1) {
+                if (real && !undetermined && unresolved && expected.size() == 1 && !k1Variant) { // (what K1 left unvisited may also be left unresolved)
                     // Which import of the closure was left unresolved?  (walks the real objects the way the closure is defined)
                     std::string where = structural;
                     ctx.violate("C07", "resolved-but-has-unresolved-imports", structural,
